@@ -533,4 +533,32 @@ theorem nextKeys_keeps_or_schedules {s : State} {c : List Entry} {e : Entry} (he
       show hasKT (sched s c) e.key e.ty = true
       rw [hasKT_sched]
       exact (hasKT_true_iff _ _ _).2 ⟨x, hx, hk, ht⟩
+
+theorem insertPending_mono {now h : Nat} {new : List (Nat × Nat)} {tbf : List Entry} {e : Entry}
+    (he : e ∈ tbf) : e ∈ insertPending now h tbf new := by
+  induction new generalizing tbf with
+  | nil => exact he
+  | cons p ps ih =>
+    rw [insertPending_cons]
+    apply ih
+    split
+    · exact he
+    · exact List.mem_append_left _ he
+
+theorem insertPending_has {now h : Nat} {new : List (Nat × Nat)} {tbf : List Entry} {p : Nat × Nat}
+    (hp : p ∈ new) : hasKTH (insertPending now h tbf new) p.1 p.2 h = true := by
+  induction new generalizing tbf with
+  | nil => cases hp
+  | cons q qs ih =>
+    rw [insertPending_cons]
+    rcases List.mem_cons.1 hp with rfl | hp
+    · rw [hasKTH_true_iff]
+      by_cases hh : hasKTH tbf p.1 p.2 h = true
+      · obtain ⟨e, he, hk⟩ := (hasKTH_true_iff _ _ _ _).1 hh
+        rw [if_pos hh]
+        exact ⟨e, insertPending_mono he, hk⟩
+      · rw [if_neg hh]
+        exact ⟨⟨p.1, p.2, h, now + pendingTimeout⟩,
+          insertPending_mono (List.mem_append_right _ (List.mem_singleton.2 rfl)), rfl, rfl, rfl⟩
+    · exact ih hp
 end SafeNet.Fetcher
